@@ -128,14 +128,51 @@ func properBounds(g orb.Geometry) orb.Geometry {
 	return g
 }
 
+// closeSomeRings closes rings (appends the first vertex) so that closed rings occur in every position.
+func closeSomeRings(r *h.Rand, g orb.Geometry) orb.Geometry {
+	cl := func(rg orb.Ring) orb.Ring {
+		if len(rg) >= 2 && r.Bool() {
+			return append(append(orb.Ring{}, rg...), rg[0])
+		}
+		return rg
+	}
+	switch x := g.(type) {
+	case orb.Ring:
+		return cl(x)
+	case orb.Polygon:
+		for i := range x {
+			x[i] = cl(x[i])
+		}
+	case orb.MultiPolygon:
+		for _, pg := range x {
+			for i := range pg {
+				pg[i] = cl(pg[i])
+			}
+		}
+	case orb.Collection:
+		for i := range x {
+			x[i] = closeSomeRings(r, x[i])
+		}
+	}
+	return g
+}
+
 // c06variants returns values that differ from g in exactly one aspect (or share memory with it).
 func c06variants(r *h.Rand, g orb.Geometry) []orb.Geometry {
 	var out []orb.Geometry
-	// one coordinate changed
-	cp := refmodel.Copy(g)
-	if ss := setters(&cp); len(ss) > 0 {
-		ss[r.Intn(len(ss))](orb.Point{12345.5, -54321.25})
-		out = append(out, cp)
+	// one coordinate changed: a random vertex, the first vertex, the last vertex
+	for k := 0; k < 3; k++ {
+		cp := refmodel.Copy(g)
+		if ss := setters(&cp); len(ss) > 0 {
+			i := r.Intn(len(ss))
+			if k == 1 {
+				i = 0
+			} else if k == 2 {
+				i = len(ss) - 1
+			}
+			ss[i](orb.Point{12345.5, -54321.25})
+			out = append(out, cp)
+		}
 	}
 	// lengths: prefix view sharing memory, and a longer copy
 	switch x := g.(type) {
@@ -242,6 +279,9 @@ func init() {
 				Run: func(c *h.Ctx, idx uint64, r *h.Rand) {
 					o := []*gen.GeomOpts{optsAll, optsFin, optsOrd}[r.Intn(3)]
 					g := properBounds(o.Geometry(r, r.Intn(5)))
+					if r.P(1, 3) {
+						g = closeSomeRings(r, g)
+					}
 					snap := refmodel.Copy(g)
 					d := func() map[string]interface{} {
 						return map[string]interface{}{"kind": refmodel.KindName(g), "geometry": sv(snap)}
